@@ -90,27 +90,135 @@ bounded('c12_normalize_fixpoint', S_A, NORM_PRE + '''
 # ------------------------------------------------------------------------------------------------
 # (c2) path decoder alone: bytes, length, indicator set and expected status equal the reference
 # ------------------------------------------------------------------------------------------------
-S_D = 'unsigned char a[N]; size_t la; ref_cfg_t cf; uint64_t flags0; int status0; unsigned char map[3 * MAPK + 3];'
+NOCONV = ('--unsigned-overflow-check', '--conversion-check')
+A_NOCONV = ['--conversion-check and --unsigned-overflow-check are off in the reference-equality units: x2c() narrows int to unsigned char modulo 256 on '
+            'non-hex input under HTP_URL_DECODE_PROCESS_INVALID (defined behaviour, documented as "will happily convert invalid input"); '
+            'the safety obligations with these checks on are carried by the contract units']
+CAD = '--sat-solver cadical'
+S_D = 'unsigned char a[N]; size_t la; ref_cfg_t cf; uint64_t flags0; int status0; int ctx; unsigned char map[3 * MAPK + 3];'
 DEC_PRE = '''
-  VASSUME(in.la <= N && C12_REFCFG_LEGAL(in.cf));
+  VASSUME(in.la <= N && C12_REFCFG_LEGAL(in.cf) && (C12_SCOPE));
   VASSERT(C12_FLAGS_AGREE, "reference indicator bits and enumerators are the library's");
   unsigned char buf[N], ref[N];
   for (size_t i = 0; i < N; i++) buf[i] = in.a[i];
   bstr b; b.realptr = buf; b.len = in.la; b.size = N;
   C12_MAP_SETUP;
-  c12_setup(&in.cf, HTP_DECODER_URL_PATH, C12_MAP, in.flags0, in.status0);
+  c12_setup(&in.cf, (enum htp_decoder_ctx_t) (C12_CTX), C12_MAP, in.flags0, in.status0);
   ref_fx_t fx; fx.flags = in.flags0; fx.status = in.status0;
 '''
 DEC_CMP = '''
-  VASSERT(b.len <= in.la, "%(w)s: never longer than the raw path");
+  VASSERT(b.len <= in.la, "%(w)s: never longer than the raw input");
   VASSERT(b.len == rl, "%(w)s: length equals the reference");
   for (size_t i = 0; i < N; i++) if (i < b.len && i < rl) VASSERT(buf[i] == ref[i], "%(w)s: bytes equal the reference");
   VASSERT(c12_tx.flags == fx.flags, "%(w)s: indicator set equals the reference (each anomaly flag raised exactly when the construct occurs; no other flag touched)");
   VASSERT(c12_tx.response_status_expected_number == fx.status, "%(w)s: expected response status equals the reference");
 '''
-bounded('c12_ref_decode_path', S_D, DEC_PRE + '''
+PATHCTX = {'C12_CTX': 'HTP_DECODER_URL_PATH', 'C12_SCOPE': '1', 'MAPK': 2}
+DEC_BODY = DEC_PRE + '''
   htp_status_t rc = htp_decode_path_inplace(&c12_tx, &b);
   size_t rl = ref_decode_path(&in.cf, C12_MAP, in.a, in.la, ref, &fx);
   VASSERT(rc == HTP_OK, "decode_path returns HTP_OK for every legal configuration");
-''' + DEC_CMP % {'w': 'decoded path'}, 7, 9, unwindset=maploops(4), unwind_extra=1, extra_defs={'MAPK': 2}, assumes=A_CFG + A_SYMMAP,
-        sub='htp_decode_path_inplace == reference decoder for every decoder configuration: bytes, length, EQUAL indicator set, equal expected status')
+''' + DEC_CMP % {'w': 'decoded path'}
+bounded('c12_ref_decode_path', S_D, DEC_BODY, 7, 9, unwindset=maploops(4), unwind_extra=1, extra_defs=PATHCTX,
+        assumes=A_CFG + A_SYMMAP + A_NOCONV, flags_del=NOCONV, solver=CAD,
+        sub='htp_decode_path_inplace == reference decoder for every decoder configuration (incl. %u decoding): bytes, length, EQUAL indicator set, equal expected status')
+bounded('c12_ref_decode_path_nou', S_D, DEC_BODY, 8, 10, unwindset=maploops(4), unwind_extra=1,
+        extra_defs=dict(PATHCTX, C12_SCOPE='in.cf.u_encoding_decode == 0'),
+        assumes=A_CFG + A_NOCONV + ['scope: u_encoding_decode == 0 (one more byte of path for the same cost)'],
+        flags_del=NOCONV, solver=CAD,
+        sub='htp_decode_path_inplace == reference decoder, %u decoding off, one byte longer')
+
+# (c2b) UTF-8 stage alone: conversion and validation variants
+bounded('c12_ref_utf8', S_D, DEC_PRE + '''
+  size_t rl;
+  if (in.cf.utf8_convert_bestfit) {
+    htp_utf8_decode_path_inplace(&c12_cfg, &c12_tx, &b);
+    rl = ref_utf8_path(&in.cf, C12_MAP, 1, in.a, in.la, ref, &fx);
+  } else {
+    htp_utf8_validate_path(&c12_tx, &b);
+    rl = ref_utf8_path(&in.cf, C12_MAP, 0, in.a, in.la, ref, &fx);
+    for (size_t i = 0; i < N; i++) ref[i] = in.a[i];
+  }
+''' + DEC_CMP % {'w': 'UTF-8 stage'}, 6, 8, unwindset=maploops(4), unwind_extra=1, extra_defs=PATHCTX,
+        assumes=A_CFG + A_SYMMAP, flags_del=NOCONV, solver=CAD,
+        sub='htp_utf8_decode_path_inplace / htp_utf8_validate_path == table-driven UTF-8 reference (overlong accepted and flagged, surrogates and > U+10FFFF rejected, '
+            'one replacement byte per maximal ill-formed prefix): bytes, length, indicator set, status')
+
+# (c3) the composed pipeline of htp_normalize_parsed_uri: decode ; utf8 ; normalise
+PIPE = DEC_PRE + '''
+  unsigned char t1[N], t2[N], again[N];
+  htp_decode_path_inplace(&c12_tx, &b);
+  if (c12_cfg.decoder_cfgs[HTP_DECODER_URL_PATH].utf8_convert_bestfit) htp_utf8_decode_path_inplace(&c12_cfg, &c12_tx, &b);
+  else htp_utf8_validate_path(&c12_tx, &b);
+  htp_normalize_uri_path_inplace(&b);
+  VASSERT(b.len <= in.la, "pipeline: normalised path is never longer than the raw path");
+  VASSERT(!ref_has_dot_segment(buf, b.len), "pipeline: normalised path contains no . or .. segment");
+  VASSERT((c12_tx.flags & in.flags0) == in.flags0, "pipeline: flags only grow");
+#ifdef C12_PIPE_IDEM
+  for (size_t i = 0; i < N; i++) again[i] = buf[i];
+  bstr c; c.realptr = again; c.len = b.len; c.size = N;
+  htp_normalize_uri_path_inplace(&c);
+  VASSERT(c.len == b.len, "pipeline: normalising the normalised path again does not change its length");
+  for (size_t i = 0; i < N; i++) if (i < b.len && i < c.len) VASSERT(again[i] == buf[i], "pipeline: normalising the normalised path again does not change its bytes");
+#endif
+#ifdef C12_PIPE_EQ
+  size_t l1 = ref_decode_path(&in.cf, C12_MAP, in.a, in.la, t1, &fx);
+  size_t l2 = ref_utf8_path(&in.cf, C12_MAP, in.cf.utf8_convert_bestfit != 0, t1, l1, t2, &fx);
+  if (!in.cf.utf8_convert_bestfit) for (size_t i = 0; i < N; i++) t2[i] = t1[i];
+  size_t rl = ref_remove_dot_segments(t2, l2, ref);
+  VASSERT(b.len == rl, "pipeline: length equals the reference pipeline");
+  for (size_t i = 0; i < N; i++) if (i < b.len && i < rl) VASSERT(buf[i] == ref[i], "pipeline: bytes equal the reference pipeline");
+  VASSERT(c12_tx.flags == fx.flags, "pipeline: indicator set equals the reference pipeline");
+  VASSERT(c12_tx.response_status_expected_number == fx.status, "pipeline: expected status equals the reference pipeline");
+#endif
+'''
+bounded('c12_pipeline', S_D, PIPE, 6, 8, unwindset=maploops(4), unwind_extra=2, extra_defs=dict(PATHCTX, C12_PIPE_IDEM=1),
+        assumes=A_CFG + A_SYMMAP + A_NOCONV, flags_del=NOCONV, solver=CAD,
+        sub="real pipeline decode ; UTF-8 ; normalise (order of htp_normalize_parsed_uri), whole configuration symbolic: len' <= len, no dot segment, "
+            "unchanged by normalising again, flags only grow")
+bounded('c12_ref_pipeline', S_D, PIPE, 5, 7, unwindset=maploops(4), unwind_extra=2, extra_defs=dict(PATHCTX, C12_PIPE_EQ=1),
+        assumes=A_CFG + A_SYMMAP + A_NOCONV, flags_del=NOCONV, solver=CAD,
+        sub='real pipeline == reference pipeline end to end (bytes, length, indicator set, status); the stage-wise units carry the same claim at larger bounds')
+
+# (c4) generic decoder htp_urldecode_inplace_ex (every context; plus decoding on/off symbolic)
+bounded('c12_ref_urldecode', S_D, DEC_PRE + '''
+  uint64_t fl = in.flags0; int st = in.status0;
+  htp_status_t rc = htp_urldecode_inplace_ex(&c12_cfg, (enum htp_decoder_ctx_t) in.ctx, &b, &fl, &st);
+  c12_tx.flags = fl; c12_tx.response_status_expected_number = st;
+  size_t rl = ref_urldecode(&in.cf, C12_MAP, in.a, in.la, ref, &fx);
+  VASSERT(rc == HTP_OK, "urldecode returns HTP_OK");
+''' + DEC_CMP % {'w': 'urldecoded string'}, 7, 9, unwindset=maploops(4), unwind_extra=1,
+        extra_defs=dict(PATHCTX, C12_CTX='in.ctx', C12_SCOPE='(in.ctx == HTP_DECODER_URLENCODED || in.ctx == HTP_DECODER_URL_PATH || in.ctx == HTP_DECODER_DEFAULTS)'),
+        assumes=A_CFG + A_SYMMAP + A_NOCONV + ['decoder context symbolic over its three enumerators'], flags_del=NOCONV, solver=CAD,
+        sub='htp_urldecode_inplace_ex == reference generic decoder in every context, plus->space on/off, every configuration: bytes, length, HTP_URLEN_* indicator set, expected status')
+
+# (c5) the %u / best-fit leaf functions against the REAL bestfit_1252 map, full input domain (loop bound = map length, constant)
+UNITS.append(U(
+    name='c12_u_decode_realmap', props=['C12'], kind='lemma', src=['htp_util.c', 'htp_config.c'], link=_link(('htp_util.c', 'htp_config.c')), replay='vin',
+    contracts_inc=['path_ref.h', 'c12_path.h'],
+    harness='''typedef struct { unsigned char d[4]; uint32_t cp; ref_cfg_t cf; uint64_t flags0; int status0; } vin_t;
+void HARNESS(void) { VIN(vin_t);
+  VASSUME(C12_REFCFG_LEGAL(in.cf));
+  unsigned char d[4]; for (int i = 0; i < 4; i++) d[i] = in.d[i];
+  c12_setup(&in.cf, HTP_DECODER_URL_PATH, bestfit_1252, in.flags0, in.status0);
+  c12_setup(&in.cf, HTP_DECODER_URLENCODED, bestfit_1252, in.flags0, in.status0);
+  ref_fx_t fx; fx.flags = in.flags0; fx.status = in.status0;
+  unsigned char r = decode_u_encoding_path(&c12_cfg, &c12_tx, d);
+  unsigned char e = rf_u_path(&in.cf, bestfit_1252, in.d, &fx);
+  VASSERT(r == e, "%u path decoding with the real best-fit map equals the reference for every 4 bytes");
+  VASSERT(c12_tx.flags == fx.flags && c12_tx.response_status_expected_number == fx.status, "%u path decoding: indicator set and status equal the reference");
+  uint64_t fl = in.flags0; fx.flags = in.flags0;
+  r = decode_u_encoding_params(&c12_cfg, HTP_DECODER_URLENCODED, d, &fl);
+  e = rf_u_generic(&in.cf, bestfit_1252, in.d, &fx);
+  VASSERT(r == e && fl == fx.flags, "%u params decoding with the real best-fit map equals the reference for every 4 bytes");
+  r = bestfit_codepoint(&c12_cfg, HTP_DECODER_URL_PATH, in.cp);
+  e = in.cp < 0x100 ? (unsigned char) in.cp : (in.cp > 0xFFFF ? in.cf.bestfit_replacement_byte :
+      rf_bestfit(bestfit_1252, (unsigned char) (in.cp >> 8), (unsigned char) (in.cp & 0xFF), in.cf.bestfit_replacement_byte));
+  VASSERT(r == e, "bestfit_codepoint with the real map equals the reference for every 32-bit code point");
+  for (int i = 0; i < 4; i++) VASSERT(d[i] == in.d[i], "the escape is only read");
+  CANARY(); }''',
+    defs={'quick': dict(KNOWN_F, MAPK=0)}, flags_add=['--unwind', '5'], unwindset=maploops(392),
+    flags_del=list(NOCONV), min_obl=8, timeout=(600, 1200),
+    sub='decode_u_encoding_path / decode_u_encoding_params / bestfit_codepoint with the REAL bestfit_1252 (391 triples) == reference, for every 4 input bytes '
+        '(hex or not), every 32-bit code point, every configuration; the map is 00 00-terminated (unwinding assertion)',
+    assumes=['full input domain; the only loop is the map scan, bounded by the constant map length 391 (unwinding assertions on)'] + A_NOCONV))
